@@ -26,7 +26,7 @@ M = [
  ("M07-streaming-crc-low-byte", "src/parser/streaming.rs", ["C04","C09"],
   [("                if digest != crc {", "                if digest as u8 != crc as u8 {")],
   "streaming parser compares only the low byte of the message CRC"),
- ("M08-encoder-restarts-after-none", "src/transport/encode.rs", ["C07","C05"],
+ ("M08-encoder-restarts-after-none", "src/transport/encode.rs", ["C07"],
   [("                    8 => {\n                        return None;\n                    }", "                    8 => {\n                        self.state = Init(0);\n                        return None;\n                    }")],
   "iterator encoder rewinds after returning None: polling again yields a second start sequence"),
  ("M09-next-hides-pending-bytes", "src/transport/decoder_reader.rs", ["C10","C11","C15","C17"],
